@@ -1,6 +1,7 @@
 import TexcraftModel.Model.C19
 import TexcraftModel.Lemmas.C19
 import TexcraftModel.Lemmas.C19Names
+import TexcraftModel.Lemmas.C19Deep
 
 /-!
 # C19 — `\input`, `\endinput` and `\read` treat files as lines standing in place
@@ -341,5 +342,77 @@ example :
     (runOps true [(0, [⟨[.chr 65], some [.sp]⟩])] [] [.openin 0 0, .read false 0 100, .ifeof 0]).out = [chrF] ∧
     (runOps true [(0, [⟨[.chr 65], some [.sp]⟩])] [] [.openin 0 0, .read false 0 100, .read false 0 101, .use 101, .ifeof 0]).out
       = [chrL, .par, chrR, chrT] := by decide
+
+/-! ## Deepening round: the two pinned deviations exactly, and the input-stack view -/
+
+/-- **C19-b, exactly.** On every non-empty list of lines, for every brace depth and
+accumulator, the model's `\read` is TeX's `\read` (§485–§486) followed by one extra action:
+a stream that is left open on *zero* real lines is closed at once (`closeEmpty`). Same
+tokens, same error, same remaining lines in every other case. (The full statement
+`ifeof_after_appended_line_full_statement` fails exactly because of `closeEmpty`.) -/
+theorem read_is_tex_read_closing_early (ls : List TLine) (d : Nat) (acc : List Tok) (h : ls ≠ []) :
+    readFile ls d acc = closeEmpty (texReadFile ls d acc) :=
+  readFile_eq_closeEmpty_tex ls d acc h
+
+/-- Consequences: whenever TeX's `\read` succeeds so does the model's, with the same tokens;
+they differ only in `some []` versus `none`. -/
+theorem read_tokens_are_tex_tokens (ls : List TLine) (h : ls ≠ []) (toks : List Tok) (rem : Option (List TLine))
+    (ht : texReadFile ls 0 [] = .ok toks rem) :
+    ∃ rem', readFile ls 0 [] = .ok toks rem' ∧ (rem' = rem ∨ (rem = some [] ∧ rem' = none)) := by
+  rw [read_is_tex_read_closing_early ls 0 [] h, ht]
+  cases rem with
+  | none => exact ⟨none, rfl, Or.inl rfl⟩
+  | some r =>
+    cases r with
+    | nil => exact ⟨none, rfl, Or.inr ⟨rfl, rfl⟩⟩
+    | cons a b => exact ⟨some (a :: b), rfl, Or.inl rfl⟩
+
+example : readFile [[.chr 65, .sp]] 0 [] = closeEmpty (texReadFile [[.chr 65, .sp]] 0 []) ∧
+    texReadFile [[.chr 65, .sp]] 0 [] = .ok [.chr 65, .sp] (some []) := by decide
+
+/-- **C19-a, exactly.** For every well-formed tree (no hypothesis on where `\endinput` stands)
+the machine delivers what *TeX* delivers for the program in which the rest of the line after
+every `\endinput` (and after every macro call whose body holds one) has been deleted
+(`truncLines`, `truncFS`): `Lexer::end` is TeX's `\endinput` plus that deletion and nothing
+else. The truncated program satisfies the hypothesis of `endinput_finishes_line_partial`. -/
+theorem endinput_is_tex_on_truncated_program (fs : FS) (d : Nat) (main : File) (hd : d ≤ 99)
+    (hwf : WF fs d main = true) :
+    (∃ N, ∀ fuel, N ≤ fuel →
+      run fs fuel main = .ok (inlineToks true (truncFS fs) d (truncLines main))) ∧
+    endLastLines (truncLines main) = true := by
+  refine ⟨?_, endLast_truncLines main⟩
+  obtain ⟨N, h⟩ := run_wf fs d main hd hwf
+  refine ⟨N, fun fuel hf => ?_⟩
+  rw [h fuel hf]
+  simp [inlineToks, denFile_trunc fs d, denLines_trunc]
+
+/-- `A\endinput B` ⏎ `C` is truncated to `A\endinput` ⏎ `C`, on which TeX delivers `A`. -/
+example :
+    truncLines [[.atom (.tok (.chr 65)), .atom .endinput, .atom (.tok (.chr 66))], [.atom (.tok (.chr 67))]]
+      = [[.atom (.tok (.chr 65)), .atom .endinput], [.atom (.tok (.chr 67))]] ∧
+    inlineToks true (truncFS []) 0
+      (truncLines [[.atom (.tok (.chr 65)), .atom .endinput, .atom (.tok (.chr 66))], [.atom (.tok (.chr 67))]])
+      = [.chr 65] := by decide
+
+/-- **The input stack: `\input` among pending macro tokens.** If the next pending token of the
+current source is `\input f` (it came from a macro body) with further pending tokens `p`, and
+`f`'s tree is well-formed within the nesting budget that the height of the stack leaves, the
+machine reaches the state in which exactly `f`'s tokens have been delivered and the *same*
+source continues with `p` — before the rest `cur` of its current line and its remaining lines
+`rest`, both untouched, as are the suspended sources `below`. (`Source.expansions` stays with
+the source that did the `\input`; `next_unexpanded` pops pending tokens before it asks the
+lexer, also right after a source has ended.) -/
+theorem input_returns_to_pending_tokens (fs : FS) (d : Nat) (f : Nat) (hf : wfFile fs (d + 1) f = true)
+    (p : List Atom) (cur : List Item) (rest : List Line) (below : List Source) (out : List Tok)
+    (h1 : 1 ≤ below.length) (hle : below.length + (d + 1) ≤ 100) :
+    ∃ n, iter fs n ⟨⟨.input f :: p, cur, rest⟩ :: below, out, .running⟩
+      = ⟨⟨p, cur, rest⟩ :: below, out ++ denFile false fs (d + 1) f, .running⟩ :=
+  input_among_pending fs d below.length h1 hle f hf p cur rest below out rfl
+
+/-- Non-vacuity: `\m` with body `\input f X`, `f` = `B`, then `Y` on the line: `B X Y`. -/
+example :
+    run [(0, [[.atom (.tok (.chr 66))]])] 30
+      [[.call [.input 0, .tok (.chr 88)], .atom (.tok (.chr 89))]] = .ok [.chr 66, .chr 88, .chr 89] := by
+  decide +kernel
 
 end C19
